@@ -85,7 +85,7 @@ def grow_lists(types, instrs, kw, tag, cfg):
     return n
 
 
-def immutable(types, desc, cfg):
+def immutable(types, desc, cfg, reread=True):
     cls = load_class(desc["module"], desc["name"])
     ENTRY["mode"] = desc["entry"]
     tree = gen_unit(types, desc["instrs"], desc["name"], cfg, desc["entry"], "any")
@@ -115,7 +115,11 @@ def immutable(types, desc, cfg):
         same_fields(types, desc["instrs"], obj, tree, desc["name"] + " after write")
     frozen(types, desc["instrs"], obj, tree, desc["name"])
     check(ser(cls, obj) == a, "failed assignments leave the object unchanged")
-    # deserialized instances behave the same
+    if not reread:
+        return
+    # deserialized instances behave the same.  A wire-ambiguous layout may re-read its own bytes with an element count
+    # decoded from shifted data (up to 253): counts beyond the cap are outside the claim (recorded as an assumption)
+    set_range_cap(8)
     rd = EoReader(a)
     rd.chunked_reading_mode = desc["entry"]
     try:
